@@ -4,6 +4,7 @@
 # itself is not touched. C20 is left out (its CLI and macro legs build from /repo).
 R=${VP_RUN_REPO:?needs --with-repo}; HERE=$PWD
 export CARGO_NET_OFFLINE=true
+export CARGO_TARGET_DIR=$HERE/harness/target-sweep   # (harness/.cargo/config.toml names /verif/harness/target)
 cd $HERE/harness && sed -i "s#/repo/#$R/#" Cargo.toml && cargo build --release --offline >/dev/null 2>&1 || { echo "harness build failed"; exit 2; }
 IDS=${@:-C02 C03 C04 C05 C06 C09 C14 C15 C16 C17 C18 C11 C13 C10 C12 C08 C19 C07 C01}
 for id in $IDS; do
@@ -11,7 +12,7 @@ for id in $IDS; do
     name=$(basename $d)
     (cd $R && patch -p1 -s --no-backup-if-mismatch < $d/patch.diff >/dev/null 2>&1) || { echo "$name does-not-apply"; (cd $R && git checkout -q -- . 2>/dev/null); continue; }
     if cargo build --release --offline >/dev/null 2>&1; then
-      VERIF_OUT=$HERE/out/$name ./target/release/vcheck $id --tier quick > $HERE/out-$name.log 2>&1; rc=$?
+      VERIF_OUT=$HERE/out/$name $CARGO_TARGET_DIR/release/vcheck $id --tier quick > $HERE/out-$name.log 2>&1; rc=$?
       echo "$name exit=$rc $(grep -c '^VIOLATION' $HERE/out-$name.log) violation lines"
     else
       echo "$name build-failed"
